@@ -72,7 +72,7 @@ TEXTS = {
         "technique": "runtime monitoring under imposed fragmentation/Pending schedules (exhaustive for small inputs) against the unfragmented twin",
     },
     "C14": {
-        "level_text": "Inverse + interoperability monitor: payloads (empty, 1 byte, runs, text, incompressible, block-boundary sizes, multi-megabyte) x 4 codecs x {one-shot helpers; upstream-encoded foreign streams; streaming adapters sync+async under caller chunk schedules over fragmenting/Pending streams; every composition of write chunks for |x|<=12}; outputs must decode with the upstream codec libraries consuming exactly the whole stream, a sample of gzip outputs with Python's gzip, and 'unknown' must be refused by all eight entry points. Thorough adds an ASan pass with the zstd C code instrumented.",
+        "level_text": "Inverse + interoperability monitor: payloads (empty, 1 byte, runs, text, incompressible, block-boundary sizes, multi-megabyte) x 4 codecs x {one-shot helpers; upstream-encoded foreign streams; streaming adapters sync+async under caller chunk schedules over fragmenting/Pending streams; every composition of write chunks for |x|<=12; back-to-back one-shot calls on x, a same-length sibling differing in one byte, and x again}; outputs must decode with the upstream codec libraries consuming exactly the whole stream, a sample of gzip outputs with Python's gzip, and 'unknown' must be refused by all eight entry points. Thorough adds an ASan pass with the zstd C code instrumented.",
         "level_note": "Trusted: flate2/brotli/zstd upstream decoders and Python zlib as judges of 'standard stream'.",
         "technique": "runtime monitoring of compress/decompress inverses against upstream and unrelated decoders under chunking schedules; ASan layer in thorough",
     },
@@ -92,7 +92,7 @@ TEXTS = {
         "technique": "offline checker over recorded stream-operation logs, replayed at every crash point into the library's reader",
     },
     "C18": {
-        "level_text": "Stream-image monitor: the writers (sync and async with Pending) start at position P in {0,1,10,127,128,4096,random<2^20} of streams pre-filled with sentinels (empty, shorter than P, exactly P, longer than the archive); sentinel bytes before P must be intact, stream[P..final position] must validate with the independent reader and address exactly the logical content with offsets relative to P, and the final position must be P + archive end.",
+        "level_text": "Stream-image monitor: the writers (sync and async with Pending) start at position P in {0,1,10,127,128,4096,random<2^20, around 2^32 on a stream with a hole, and every section offset/length/end of the archive's own header +-{0,1,127}} of streams pre-filled with sentinels (empty, shorter than P, exactly P, longer than the archive); sentinel bytes before P must be intact, stream[P..final position] must validate with the independent reader and address exactly the logical content with offsets relative to P, and the final position must be P + archive end.",
         "level_note": "Trusted: refimpl validator; in-memory stream with Cursor semantics (zero fill past the end).",
         "technique": "runtime monitoring of the stream image after writing at a non-zero start position, judged by the independent reader",
     },
